@@ -8,6 +8,7 @@ import threading
 from . import sched
 
 LOG = []          # [thread name, kind, token, args]
+LOG_RESOLVE = False  # log every resolution of a simrec.f_<token> name (and do not cache the function)
 OBJ_HOOK = None   # optional callable(token, kwargs) receiving the real objects a target was called with
 
 
@@ -66,7 +67,10 @@ class _SimRec(types.ModuleType):
     def __getattr__(self, name):
         if name.startswith('f_'):
             f = _make_f(name[2:])
-            setattr(self, name, f)
+            if LOG_RESOLVE:
+                LOG.append([_who(), 'resolve', name[2:], []])
+            else:
+                setattr(self, name, f)
             return f
         if name.startswith('v_'):
             LOG.append([_who(), 'import', name[2:], []])
@@ -81,4 +85,7 @@ def install():
     m.__file__ = '<simrec>'
     sys.modules['simrec'] = m
     del LOG[:]
+    global LOG_RESOLVE, OBJ_HOOK
+    LOG_RESOLVE = False
+    OBJ_HOOK = None
     return m
